@@ -4,7 +4,9 @@ Engine E1.  trim: every raster of each listed shape over {1 (kept), 0, NaN} (int
 exclusion sets {NaN (default)}, {0}, {0, NaN} (ints also {0, 2}).  crop: every zones raster over {0, 1, 2} x every
 non-empty subset of the ids (as an ascending list and / or a descending tuple) on an all-distinct values raster.  Reference model (in this
 file, numpy only): bounding box of np.argwhere(kept); the result must be the numpy slices of that box of the
-original's cells and of each of its coordinates, with the original's dims and attrs."""
+original's cells and of each of its coordinates, with the original's dims and attrs.
+trimx spaces: every uint8 / int16 / int64 raster over three letters x exclusion sets holding numbers the raster's dtype
+cannot represent (fractions, integers outside its range): no cell equals such a number, so it excludes nothing."""
 import itertools
 import re
 
@@ -17,7 +19,9 @@ PROPERTY = "C18"
 LEVEL = "model_checking"
 RULE = ("trim spaces: rank = (mixed-radix number of the cell letters of the raster) x (spelling of the exclusion "
         "values); crop spaces: rank = (number of the zones raster over {0,1,2}) x (non-empty id subset as ascending list "
-        "or descending tuple); a case is non-trivial when the expected window is smaller than the raster; rasters whose "
+        "or descending tuple); a case is non-trivial when the expected window is smaller than the raster (trimx spaces: "
+        "or when a border row / column consists only of cells that are excluded or are the truncated / wrapped image, in "
+        "the raster's dtype, of a listed value that no cell equals); rasters whose "
         "cells are all excluded (trim) / hold none of the ids (crop) are generated and counted but not asserted; "
         "distinct = distinct result rasters")
 ASSUMPTIONS = [
@@ -26,6 +30,8 @@ ASSUMPTIONS = [
     "numpy-backed, C-ordered rasters; zones and values of crop have the same shape; zone ids are integers",
     "the result's name and the identity/aliasing of the returned object are not asserted (only cells, dims, every "
     "coordinate and attrs)",
+    "exclusion values are real numbers compared exactly: a fraction or an integer outside the raster dtype's range "
+    "equals no cell of an integer raster (trimx spaces; magnitudes <= 65537 so that float64 holds them exactly)",
     "an exclusion set holding both 0 and NaN is passed in the spellings (0.0, nan), [nan, 0.0] (one numeric type) and, in "
     "the small trim_spellings_* spaces, (0, nan), (nan, 0), [0, nan] (Python int next to float)",
 ]
@@ -64,6 +70,36 @@ def trim_spellings(dtype, which):
 # Python int next to a float in `values`: a separate, small set of spaces (the failure is a type-level one and every
 # failing call re-runs the numba front end, ~0.3 s)
 HETERO = {"quick": [((1, 2), "f8"), ((2, 1), "i8")], "thorough": [((1, 2), "f8"), ((2, 1), "i8"), ((2, 2), "f8")]}
+
+
+# trimx: integer rasters x exclusion sets with numbers the dtype cannot represent.  dtype -> (alphabet, value lists);
+# the first letter is in no exclusion set.  A list is passed as a tuple when written (..) and as a list when [..].
+def _spell(vals, as_list=False):
+    vals = tuple(vals)
+    label = repr(list(vals)) if as_list else repr(vals)
+    return (label.replace(" ", ""), (lambda: list(vals)) if as_list else (lambda: vals), vals)
+
+
+TRIMX_VALUES = {
+    "u1": ((1, 0, 255), [_spell((0.5,)), _spell((255.5,)), _spell((256,)), _spell((-1,)), _spell((257,)),
+                         _spell((0, -1)), _spell((256, 255), True), _spell((0.5, 255.0))]),
+    "i2": ((1, -9999, 3), [_spell((3.75,)), _spell((-9999.5,)), _spell((55537,)), _spell((-65533,)), _spell((65537,)),
+                           _spell((3, 55537)), _spell((3.75, -9999.0), True), _spell((2.5, 3.0))]),
+    "i8": ((4, 0, 3), [_spell((0.5,)), _spell((-0.5,)), _spell((3.75,)), _spell((3.25,)), _spell((4.5,)),
+                       _spell((0, 3.75)), _spell((0.5, 3.0), True), _spell((-0.5, 0.0, 3.5))]),
+}
+TRIMX_BITS = {"u1": (8, False), "i2": (16, True), "i8": (64, True)}
+TRIMX = {"quick": [(s, d) for d in ("u1", "i2", "i8") for s in ((1, 4), (4, 1), (2, 3), (3, 2))]}
+TRIMX["thorough"] = TRIMX["quick"] + [(s, d) for d in ("u1", "i2", "i8") for s in ((1, 7), (7, 1), (2, 4), (4, 2))]
+
+
+def cast_image(e, dtype):
+    """What a C-style cast of the number e to the integer dtype gives: truncation towards zero, then wrap-around."""
+    bits, signed = TRIMX_BITS[dtype]
+    v = int(e) % (1 << bits)
+    return v - (1 << bits) if signed and v >= 1 << (bits - 1) else v
+
+
 # crop: (shape, zones dtype, values dtype, id spellings: 'both' = every subset as list and as tuple, 'alt' = alternating)
 CROP = {
     "quick": [((1, 1), "i8", "f8", "both"), ((1, 6), "i8", "f8", "both"), ((6, 1), "f8", "i8", "both"),
@@ -79,6 +115,8 @@ ID_SPELLINGS = {"both": _AS_LIST + _AS_TUPLE,
                 "alt": [(_AS_LIST if i % 2 == 0 else _AS_TUPLE)[i] for i in range(len(ID_SETS))]}
 BOUNDS = {t: {"trim": [dict(shape=list(s), dtype=d, alphabet=["1", "0", "nan"] if d[0] == "f" else ["1", "0", "2"],
                             values=[x[0] for x in trim_spellings(d, w)]) for s, d, w in TRIM[t]],
+              "trim_unrepresentable": [dict(shape=list(s), dtype=d, alphabet=list(TRIMX_VALUES[d][0]),
+                                            values=[x[0] for x in TRIMX_VALUES[d][1]]) for s, d in TRIMX[t]],
               "trim_spellings": [dict(shape=list(s), dtype=d, values=[x[0] for x in SPELL_HETERO]) for s, d in HETERO[t]],
               "crop": [dict(shape=list(s), zones_dtype=zd, values_dtype=vd, zones_alphabet=[0, 1, 2],
                             zones_ids=[x[0] for x in ID_SPELLINGS[sp]]) for s, zd, vd, sp in CROP[t]]}
@@ -88,6 +126,10 @@ BOUNDS = {t: {"trim": [dict(shape=list(s), dtype=d, alphabet=["1", "0", "nan"] i
 # ---- reference model ------------------------------------------------------------------------------------
 def kept_mask(a, excluded):
     """Cells whose value is not in `excluded` (a NaN cell is excluded exactly when NaN is listed)."""
+    if a.dtype.kind in "iu":
+        # Python numbers: int == int and int == float comparisons are exact, whatever the raster's dtype
+        listed = [e for e in excluded if e == e]
+        return np.array([all(v != e for e in listed) for v in a.ravel().tolist()], dtype=bool).reshape(a.shape)
     m = np.ones(a.shape, dtype=bool)
     for e in excluded:
         if e != e:
@@ -190,9 +232,10 @@ class _Base(Space):
 
 
 class TrimSpace(_Base):
-    def __init__(self, shape, dtype, spellings, tag="trim"):
+    def __init__(self, shape, dtype, spellings, tag="trim", alphabet=None):
         self.shape, self.dtype, self.spellings = shape, dtype, spellings
-        self.alphabet = KEEP_F if dtype[0] == "f" else KEEP_I
+        self.alphabet = alphabet or (KEEP_F if dtype[0] == "f" else KEEP_I)
+        self.trimx = tag == "trimx"
         self.name = "%s_%dx%d_%s" % (tag, shape[0], shape[1], dtype)
         self.nr = len(self.alphabet) ** (shape[0] * shape[1])
         self.size = self.nr * len(spellings)
@@ -234,6 +277,13 @@ class TrimSpace(_Base):
                 problems = [("raises-%s" % type(ex).__name__, exc_text(ex))]
             t, b, l, rr = box
             nontrivial = (b - t + 1, rr - l + 1) != a.shape
+            if self.trimx:
+                # would comparing in the raster's dtype give another window?  (bookkeeping only)
+                near = kept_mask(a, tuple(excl) + tuple(cast_image(e, self.dtype) for e in excl))
+                if bbox(near) != box:
+                    nontrivial = True
+                    out.count("trimx: a border line holds only excluded cells and truncated/wrapped images of listed "
+                              "values (kept cells)")
             out.case(outcome=o if o is not None else problems[0][1], nontrivial=nontrivial, calls=1)
             out.ok()
             if problems:
@@ -322,5 +372,6 @@ class CropSpace(_Base):
 def build(tier):
     sp = [TrimSpace(s, d, trim_spellings(d, w), tag="trim" if w == "full" else "trimcore") for s, d, w in TRIM[tier]]
     sp += [TrimSpace(s, d, SPELL_HETERO, tag="trim_spellings") for s, d in HETERO[tier]]
+    sp += [TrimSpace(s, d, TRIMX_VALUES[d][1], tag="trimx", alphabet=TRIMX_VALUES[d][0]) for s, d in TRIMX[tier]]
     sp += [CropSpace(s, zd, vd, spell) for s, zd, vd, spell in CROP[tier]]
     return sp
